@@ -5700,9 +5700,11 @@ class PyCdlib:
         if signature != b'\xfb\xc0\x78\x70':
             raise pycdlibexception.PyCdlibInvalidInput('Invalid signature on boot file for iso hybrid')
 
-        self.isohybrid_mbr = isohybrid.IsoHybrid()
-        self.isohybrid_mbr.new(efi, mac, part_entry, mbr_id, part_offset,
-                               geometry_sectors, geometry_heads, part_type)
+        # Only replace the current state once the new one has been accepted.
+        new_isohybrid = isohybrid.IsoHybrid()
+        new_isohybrid.new(efi, mac, part_entry, mbr_id, part_offset,
+                          geometry_sectors, geometry_heads, part_type)
+        self.isohybrid_mbr = new_isohybrid
 
         # The hybrid boot sector records where the boot file lives, which is
         # only filled in when extents are assigned.
